@@ -409,6 +409,12 @@ func (ms *RocksStorage) ApplySnapshot(snap pb.Snapshot) error {
 	if err != nil {
 		return err
 	}
+	// the log is replaced by the snapshot, also remove the old entries after the
+	// snapshot index (a longer conflicting suffix), the same as the memory storage
+	err = ms.deleteFrom(batch, e.Index+1)
+	if err != nil {
+		return err
+	}
 	return ms.commitBatch(batch)
 }
 
